@@ -44,7 +44,7 @@ def run_spec(cases, impl_results):
             elif f['kind'] in ('line', 'comment'):
                 qs.append("Q\t%s\t%s\t%s\t%s\t%s" % (f['class'], 'I' if f['inv'] else 'D', f['prop'], f['ty'], f['card']))
         lines += body[:-1] + qs + body[-1:]
-    res = model.run_driver(lines) if lines else {}
+    res = model.run_driver(lines, spec_only=True) if lines else {}
     out = []
     for i, facts in enumerate(allfacts):
         if facts is None:
